@@ -393,3 +393,57 @@ def install_units_int_shim():
 
     if boot.SYMBOLIC:
         units.int = sym_int
+
+
+class MapOrderView:
+    """
+    an immutables.Map whose bulk iteration (values / keys / items / iter) follows a solver-chosen order of its keys;
+    lookups and persistent updates delegate to the real Map (an update returns a real Map: by then the order that
+    matters -- the one the caller iterated at the start -- has been consumed).
+    """
+
+    def __init__(self, m, order):
+        self.m = m
+        self.order = tuple(order)  # concrete tuple of keys
+
+    def values(self):
+        return [self.m[k] for k in self.order]
+
+    def keys(self):
+        return list(self.order)
+
+    def items(self):
+        return [(k, self.m[k]) for k in self.order]
+
+    def __iter__(self):
+        return iter(self.order)
+
+    def __len__(self):
+        return len(self.m)
+
+    def __contains__(self, k):
+        return k in self.m
+
+    def __getitem__(self, k):
+        return self.m[k]
+
+    def get(self, k, default=None):
+        return self.m.get(k, default)
+
+    def set(self, k, v):
+        return self.m.set(k, v)
+
+    def delete(self, k):
+        return self.m.delete(k)
+
+    def update(self, *a, **k):
+        return self.m.update(*a, **k)
+
+    def __eq__(self, o):
+        return self.m == (o.m if isinstance(o, MapOrderView) else o)
+
+    def __hash__(self):
+        return hash(self.m)
+
+    def __ch_deep_realize__(self, memo):
+        return self
